@@ -5,6 +5,7 @@ import Ndt.Model.Rule
 import Ndt.Model.Fornberg
 import Ndt.Model.FdDerivative
 import Ndt.Model.Dea
+import Ndt.Model.Steps
 /-! The line-protocol driver: one operation per input line, one output line per input line. -/
 namespace Ndt.Driver
 open Ndt.Proto Ndt.Gen
@@ -59,8 +60,33 @@ def runEps (seq : List Float) : String :=
   let (outs, tab) := go [] seq []
   joinSp outs ++ " | " ++ joinSp (tab.map toHex)
 
+def optNat (s : String) : Option Nat := if s == "-" then none else some s.toNat!
+
 def handle (w : List String) : String :=
   match w with
+  -- stepgen method n order numSteps|- check extrap: the generated count logic and defaults
+  | ["stepgen", m, n, o, ns, chk, ex] =>
+    let g : StepGen := { method := Method.ofString m, n := n.toNat!, order := o.toNat!, numSteps := optNat ns,
+                         checkNumSteps := chk == "1", numExtrap := ex.toNat!, stepRatio := none }
+    joinSp [toString (StepGen._num_step_divisor g.method g.n g.order), toString g.min_num_steps, toString g.num_steps,
+            ratStr g.default_step_ratio, ratStr (default_scale g.method g.n g.order)]
+  -- rulecount method n order numSteps|- check extrap: rule size vs the count Derivative._get_steps obtains
+  | ["rulecount", m, n, o, ns, chk, ex] =>
+    let r : LogRule := ⟨n.toNat!, Method.ofString m, o.toNat!⟩
+    let g0 : StepGen := { method := .forward, n := 1, order := 2, numSteps := optNat ns,
+                          checkNumSteps := chk == "1", numExtrap := ex.toNat!, stepRatio := none }
+    let g : StepGen := withRule g0 r
+    let size := if r.method == .multicomplex || r.n == 0 then 1 else r.num_terms
+    s!"{size} {g.num_steps}"
+  -- steps max|min base ρ numSteps offset (Rat)
+  | ["steps", kind, base, rho, ns, off] =>
+    let l := if kind == "max" then stepsMax (rq base) (rq rho) ns.toNat! (parseInt off)
+             else stepsMin (rq base) (rq rho) ns.toNat! (parseInt off)
+    joinSp (l.map ratStr)
+  | ["gendefaults"] =>
+    joinSp [toString (repr maxGenDefaults.numSteps), b2s maxGenDefaults.checkNumSteps, toString maxGenDefaults.numExtrap,
+            ratStr maxGenBaseStep, b2s maxGenUseExact, toString (repr minGenDefaults.numSteps), b2s minGenDefaults.checkNumSteps,
+            toString minGenDefaults.numExtrap, b2s minGenUseExact, ratStr cGenStepRatio, ratStr cGenScale]
   -- dea limexp eps huge s1 s2 …
   | "dea" :: limexp :: eps :: huge :: seq =>
     runDea ⟨fb eps, fb huge, 1.0e-4, 5.0, 6.0⟩ limexp.toNat! (floats seq)
